@@ -73,7 +73,7 @@ def encode_content(payload, coding, rng):
     return payload
 
 
-def chunk_encode(tape, rng, coded, hints, base):
+def chunk_encode(tape, rng, coded, hints, base, eol=b'\r\n'):
     out = bytearray()
     pos = 0
     n = len(coded)
@@ -95,25 +95,25 @@ def chunk_encode(tape, rng, coded, hints, base):
         elif style == 4:
             ext = b' ; a="q;uo\\"ted" ;b'
         hints.append(base + len(out))
-        out += hx.encode() + ext + b'\r\n'
+        out += hx.encode() + ext + eol
         hints.append(base + len(out))
         out += coded[pos:pos + size]
         hints.append(base + len(out))
-        out += b'\r\n'
+        out += eol
         pos += size
         nch += 1
     hints.append(base + len(out))
     last = tape.choice((b'0', b'00', b'0;last'), 'chunk.last')
-    out += last + b'\r\n'
+    out += last + eol
     hints.append(base + len(out))
     trailers = b''
     if tape.chance(1, 3, 'trailer'):
-        trailers = b'X-Trailer: tv\r\n'
+        trailers = b'X-Trailer: tv' + eol
         if tape.chance(1, 2, 'trailer2'):
-            trailers += b'Content-MD5: Q2hlY2s=\r\n'
+            trailers += b'Content-MD5: Q2hlY2s=' + eol
     out += trailers
     hints.append(base + len(out))
-    out += b'\r\n'
+    out += eol if not tape.chance(1, 12, 'chunk.final_lf') else b'\n'
     return bytes(out), nch, bool(trailers)
 
 
@@ -250,7 +250,9 @@ def gen_response(tape, method='GET', allow_truncate=False, allow_surplus=True, a
     base = len(head)
     hints.append(base)
     if framing == 'chunked':
-        r.body_wire, nch, tr = chunk_encode(tape, rng, coded, hints, base)
+        ceol = b'\n' if (lf_only or (allow_lf and tape.chance(1, 12, 'chunk.lf'))) else b'\r\n'
+        r.body_wire, nch, tr = chunk_encode(tape, rng, coded, hints, base, ceol)
+        r.desc['chunk_lf'] = ceol == b'\n'
         r.desc['chunks'] = nch
         r.desc['trailers'] = tr
     elif framing in ('length', 'close'):
